@@ -477,7 +477,7 @@ pub fn run(args: &Args) -> ! {
         for (tape, level) in pt::draw(ctx.seed, "c11-fuzz-seeds", &(tape_strategy(200), 0u8..3), 60) {
             seeds.push(build(&tape, level, &opts).0.into_bytes());
         }
-        if let Some(bytes) = vl_model::fuzz::campaign(&mut ctx, "c11_diff", 3_000_000, &seeds, 2048) {
+        if let Some(bytes) = vl_model::fuzz::campaign(&mut ctx, "c11_diff", 1_000_000, &seeds, 2048) {
             let text = String::from_utf8_lossy(&bytes).to_string();
             match differential(&text, None) {
                 Err(f) => {
